@@ -202,7 +202,9 @@ fn check(acc: &mut Acc, idx: usize, node: &Node, tag: &str) {
     acc.sample(idx, || json!({"geometry": format!("{:?}", g), "expected_centroid": exp.map(|e| [e.0, e.1])}));
     for (oname, off) in [("0", (0.0, 0.0)), ("1.5e8", (1.5e8, -1.5e8))] {
         let gg = g.map_coords(|c| Coord { x: c.x + off.0, y: c.y + off.1 });
-        for scale in [1.0, 2.0] {
+        // 2^-30 and 2^40 only at the origin: power-of-two scaling is exact, so the centroid must scale exactly (no absolute size thresholds)
+        let scales: &[f64] = if off.0 == 0.0 { &[1.0, 2.0, 1.0 / 1073741824.0, 1099511627776.0] } else { &[1.0, 2.0] };
+        for &scale in scales {
             let gs = gg.map_coords(|c| Coord { x: c.x * scale, y: c.y * scale });
             let got = guard(|| gs.centroid());
             acc.evals += 1;
